@@ -139,7 +139,13 @@ def api_background2d(sc, D, E, U=None):
 
 def api_detect_threshold(sc, D, E, U=None):
     from photutils.segmentation import detect_threshold
-    return {'flux:threshold': detect_threshold(D, 2.5, mask=sc['mask'])}
+    # an integer nsigma with explicit background and error maps: the arithmetic is done on the values, not in the dtype of the error map
+    # (defect F69: uint16 errors of 30000 times nsigma = 3 wrapped around)
+    big_e = np.round(np.asarray(np.ma.getdata(getattr(E, 'value', E)), float) * 0 + 30000).astype(np.asarray(np.ma.getdata(getattr(E, 'value', E))).dtype)
+    if U is not None:
+        big_e = big_e * U
+    return {'flux:threshold': detect_threshold(D, 2.5, mask=sc['mask']),
+            'flux:threshold_explicit': detect_threshold(D, 3, background=D * 0, error=big_e)}
 
 
 def api_detect_deblend(sc, D, E, U=None):
@@ -279,6 +285,9 @@ def api_bkg_estimators(sc, D, E, U=None):
                 pb.BiweightLocationBackground, pb.StdBackgroundRMS, pb.MADStdBackgroundRMS, pb.BiweightScaleBackgroundRMS):
         out[f'flux:{cls.__name__}'] = cls(sigma_clip=SigmaClip(sigma=3.0))(D)
         out[f'flux:{cls.__name__}:axis'] = cls(sigma_clip=None)(D, axis=1)
+        # without clipping; integer arrays are handed over as MaskedArrays with an empty mask (defect F70: filled(nan) on an integer array)
+        Dm = np.ma.MaskedArray(D, mask=np.zeros(D.shape, bool)) if (type(D) is np.ndarray and D.dtype.kind in 'iu') else D
+        out[f'flux:{cls.__name__}:noclip'] = cls(sigma_clip=None)(Dm)
     return out
 
 
